@@ -100,17 +100,40 @@ def _types(names):
     return tuple(d[n] for n in names)
 
 
-def _stack_rows(stack, it):
-    df = stack._stacked
+def _stacked_frame(stack, m=None):
+    """the stacker's joined copy: its `_stacked` frame (reamber itself reads it, e.g. full_ln), or - should an
+    implementation keep it elsewhere - rebuilt through the public indexer stack[col]"""
+    df = getattr(stack, "_stacked", None)
+    if df is not None:
+        return df
+    cols = []
+    for lst in (m.objs.values() if m is not None else []):
+        for c in lst.df.columns:
+            if c not in cols:
+                cols.append(c)
+    out = {}
+    for c in cols:
+        try:
+            out[c] = stack[c]
+        except KeyError:
+            pass
+    return pd.DataFrame(out)
+
+
+def _stack_rows(stack, it, m=None):
+    df = _stacked_frame(stack, m)
     cols = [c for c in df.columns if str(c) not in ("index", "level_0")]
     colvals = [list(df[c].tolist()) for c in cols]
     ids = [FR.col_id(c) for c in cols]
     return {"cols": ids, "rows": [[[ids[j], FR.cell_json(colvals[j][i], it)] for j in range(len(cols))] for i in range(len(df))]}
 
 
-def _members(m, stack):
+def _members(m, stack, include=None):
     names = []
-    for u in stack._unstacked:
+    un = getattr(stack, "_unstacked", None)
+    if un is None:
+        return [k for k, v in m.objs.items() if include is None or isinstance(v, include)]
+    for u in un:
         for k, v in m.objs.items():
             if v is u:
                 names.append(k)
@@ -156,7 +179,7 @@ def _apply(stack, o, n):
             r2 = random.Random(o["mseed"])
             mask = [r2.random() < 0.5 for _ in range(n)]
         cols = o["cols"][0] if o["as_str"] else list(o["cols"])
-        ms = pd.Series(mask, index=stack._stacked.index, dtype=bool) if n else pd.Series([], dtype=bool)
+        ms = pd.Series(mask, index=_stacked_frame(stack).index, dtype=bool) if n else pd.Series([], dtype=bool)
         if o["aop"] == "set":
             stack.loc[ms, cols] = v
         elif o["aop"] == "add":
@@ -196,7 +219,7 @@ def execute(case):
             rows_b = _stack_rows(stack, it)
             types_b = {k: type(v).__name__ for k, v in m.objs.items()}
             try:
-                rec = _apply(stack, o, len(stack._stacked))
+                rec = _apply(stack, o, len(_stacked_frame(stack, m)))
             except KeyError as e:
                 # the property exists in no stacked list (e.g. bpm on a notes-only stack)
                 out["steps"].append({"t": "keyerror", "op": o, "exc": str(e)[:60]})
